@@ -67,7 +67,7 @@ Proof.
 Qed.
 
 (* ------------------------------------------------------------------ fill *)
-Lemma BUFSZ_pos : 1 <= BUFSZ. Proof. unfold BUFSZ. lia. Qed.
+Lemma BUFSZ_pos : 1 <= BUFSZ. Proof. apply Nat.leb_le. vm_compute. reflexivity. Qed.
 
 Lemma fill_spec all pos0 crc0 c a : Rel all pos0 crc0 c a -> c_buf c = [] ->
   match fill c with
